@@ -16,7 +16,7 @@ class C12(Prop):
     LONG_BIAS = 0.1
     WEIGHTS = {"page": 4, "pages": 2, "links": 1, "batch": 2, "again": 0, "create": 5, "delete": 4, "addprefix": 1,
                "rmprefix": 1, "move": 1, "rule": 2, "unrule": 1, "reopen": 4, "clear": 1}
-    QUICK = (14, 22)
+    QUICK = (40, 22)
     THOROUGH = (200, 40)
     ASSUMPTIONS = ["ids are compared with the ids the index itself reported earlier; no particular numbering is assumed"]
 
